@@ -123,7 +123,7 @@ def check_case(case, ctx):
     s = M.smax(J)
     w1 = rec1["weights"]
     wl1 = float(np.abs(w1).sum()) if w1 is not None and w1.shape == (m,) else 1.0
-    scale = max(s * max(wl1, 1.0), float(np.linalg.norm(out1)), 1e-300)
+    scale = max(s * max(wl1, 1.0, E.config_l1(desc)), float(np.linalg.norm(out1)), 1e-300)
     nontrivial = n >= 2 and int((np.linalg.norm(J, axis=1) > 0).sum()) >= 2
     rank, _ = M.rank_gap(J)
     if kind == "span":
